@@ -48,5 +48,6 @@ def obligations(tier):
                      typed_calloc=True, flags=['--max-field-sensitivity-array-size', '1024'],
                      desc='two level-1 chunks reduced into one level-2 chunk (%s): entry/index counts, index order, the level-2 chunk keeps the first source chunk\'s sample id; after the level is written out and emptied the next chunk carries its own' % t,
                      assumes=['the write-out of a full level is emulated by what wr_summary does to the level (both entry counts = 0)'], bound='3 source chunks of 6 entries, symbolic sample ids (second later than first)'))
+    # O3 reader-side window bookkeeping (harness/c02_window.c): no verdict in 600 s -> props/_unclaimed_C02_window.txt
     # L1 mean/std bit-equality on an 8-value grid (GRID mode of the harness): no verdict in 960 s on any back end -> not claimed
     return o
